@@ -241,7 +241,7 @@ def to_dataframe(frame, index, layout=None, dims=None):
                 df[c["header"]] = [int(v) for v in col]
         if layout.get("int_values"):
             for c in frame.cols:
-                if c["role"] in ("value", "wide") and not df[c["header"]].isna().any():
+                if c["role"] in ("value", "wide") and not df[c["header"]].isna().any() and (df[c["header"]] == np.floor(df[c["header"]])).all():
                     df[c["header"]] = df[c["header"]].astype("int64")
         ri = layout.get("row_index", "range")
         if ri == "permuted" and len(df) > 1:
